@@ -55,7 +55,7 @@ def build_project(root, spec):
     for i, d in enumerate(dirs):
         name = dn(d, f"t{i}")
         title = "Same Title" if spec.get("sametitle") else f"Title T{i}"
-        (src / (name + ".md")).write_text(f"(lbl-t{i})=\n# {title} *em*\n\n## Sub\n\ntext\n\n## Sub\n\n(lbl-p{i})=\npara P{i}\n\n### Deep `code`\n\n(Lbl-Cap{i})=\n#### Capital label section\n\n## Über uns\n\n## 安装 notes\n\n## Sub\n\nthird sub\n\n## Q & A\n")
+        (src / (name + ".md")).write_text(f"(lbl-t{i})=\n# {title} *em*\n\n## Sub\n\ntext\n\n## Sub\n\n(lbl-p{i})=\npara P{i}\n\n### Deep `code`\n\n(Lbl-Cap{i})=\n#### Capital label section\n\n## Über uns\n\n## 安装 notes\n\n## Sub\n\nthird sub\n\n## Q & A\n\n> ## Quoted head\n>\n> in a quote\n")
         (src / dn(d, f"f{i}.txt")).write_text("file")
         targets[name] = i
         # a page with the SAME file name in every directory (identical relative spelling from different source pages)
@@ -89,14 +89,14 @@ def build_project(root, spec):
             for sp, dest in spell.items():
                 if dest is None:
                     continue
-                for anchor, kind in (("", "page"), ("#sub", "sub"), ("#sub-1", "sub1"), ("#sub-2", "sub2"), ("#q--a", "amp"), ("#deep-code", "deep"), ("#über-uns", "uni"), ("#安装-notes", "cjk")):
+                for anchor, kind in (("", "page"), ("#sub", "sub"), ("#sub-1", "sub1"), ("#sub-2", "sub2"), ("#q--a", "amp"), ("#quoted-head", "rub"), ("#deep-code", "deep"), ("#über-uns", "uni"), ("#安装-notes", "cjk")):
                     if sp in ("noext", "abs-noext") and anchor:
                         continue
                     if kind == "deep" and spec["anchors"] < 3:
                         continue
-                    if kind in ("sub", "sub1", "sub2", "amp", "uni", "cjk") and spec["anchors"] < 2:
+                    if kind in ("sub", "sub1", "sub2", "amp", "rub", "uni", "cjk") and spec["anchors"] < 2:
                         continue
-                    if kind in ("uni", "cjk", "sub2", "amp") and sp not in ("rel", "abs"):
+                    if kind in ("uni", "cjk", "sub2", "amp", "rub") and sp not in ("rel", "abs"):
                         continue
                     for explicit in (True, False):
                         add(f"[{{M}} *x*]({dest}{anchor})" if explicit else f"[]({dest}{anchor})", kind=kind, target=tname, explicit=explicit, spelling=sp)
@@ -199,7 +199,7 @@ class ProjectSystem(System):
                     "label-p": [p["ids"][0] for p in dt.findall(nodes.paragraph) if p["ids"]][0],
                     "title": secs[0][0].astext(), "subtitle": "Sub", "deeptitle": secs[3][0].astext(),
                     "label-cap": [i_ for i_ in secs[4]["ids"] if "lbl-cap" in i_.lower()][0], "captitle": secs[4][0].astext(),
-                    "uni": secs[5]["ids"][0], "unititle": secs[5][0].astext(), "cjk": secs[6]["ids"][0], "cjktitle": secs[6][0].astext(), "sub2": secs[7]["ids"][0], "amp": secs[8]["ids"][0],
+                    "uni": secs[5]["ids"][0], "unititle": secs[5][0].astext(), "cjk": secs[6]["ids"][0], "cjktitle": secs[6][0].astext(), "sub2": secs[7]["ids"][0], "amp": secs[8]["ids"][0], "rub": [r["ids"][0] for r in dt.findall(nodes.rubric) if r["ids"]][0],
                 }
             app._warning.truncate(0)
             app._warning.seek(0)
@@ -224,7 +224,7 @@ class ProjectSystem(System):
                     bad("link-kept", "the paragraph holding the link disappeared")
                     continue
                 refs = [r for r in p.findall(lambda x: isinstance(x, nodes.reference) or x.tagname == "download_reference")]
-                if kind in ("page", "sub", "sub1", "sub2", "amp", "deep", "label-t", "label-p", "label-cap", "uni", "cjk"):
+                if kind in ("page", "sub", "sub1", "sub2", "amp", "rub", "deep", "label-t", "label-p", "label-cap", "uni", "cjk"):
                     tname = L["target"]
                     frag = tid[tname][kind]
                     exp = posixpath.relpath(tname + ".html", sd or ".") + ("#" + frag if frag else "")
@@ -243,7 +243,7 @@ class ProjectSystem(System):
                         if txt != f"{m} x" or not list(refs[0].findall(nodes.emphasis)):
                             bad("text", f"explicit text {txt!r}, written '{m} *x*'", which="explicit")
                     else:
-                        want = {"page": tid[tname]["title"], "sub": "Sub", "sub1": "Sub", "sub2": "Sub", "amp": "Q & A", "deep": tid[tname]["deeptitle"], "label-t": tid[tname]["title"], "label-cap": tid[tname]["captitle"], "uni": tid[tname]["unititle"], "cjk": tid[tname]["cjktitle"]}[kind]
+                        want = {"page": tid[tname]["title"], "sub": "Sub", "sub1": "Sub", "sub2": "Sub", "amp": "Q & A", "rub": "Quoted head", "deep": tid[tname]["deeptitle"], "label-t": tid[tname]["title"], "label-cap": tid[tname]["captitle"], "uni": tid[tname]["unititle"], "cjk": tid[tname]["cjktitle"]}[kind]
                         if txt != want:
                             bad("text", f"empty link text filled with {txt!r}, the target's title is {want!r}", which="implicit")
                     if any(x in warns for x in (f"'{tname}'", m)) and "xref_missing" in "".join(w for w in warns.splitlines() if m in w):
